@@ -395,6 +395,7 @@ class BaseInput:
         if transformers:
             all_columns = self._dataframe
             if need_categorical:
+                all_columns = all_columns.copy()  # do not leave the 'category' dtype on the caller-visible frame
                 all_columns[need_categorical] = all_columns[need_categorical].astype('category')
 
             all_columns = all_columns.transform(transformers)
